@@ -570,7 +570,9 @@ func forced(run *vh.Run, a, b *inst) {
 	one := func(kind string, c jCfg, st jState, ops ...jOp) {
 		runCase(run, a, b, jCase{Kind: kind, Cfg: c, St: st, Ops: ops, OrderSeed: 77})
 	}
-	trig := func(slot uint64, block int64, ks int64) jOp { return jOp{Kind: "trigger", Slot: slot, Block: block, Ks: ks} }
+	trig := func(slot uint64, block int64, ks int64) jOp {
+		return jOp{Kind: "trigger", Slot: slot, Block: block, Ks: ks}
+	}
 	// slots 0, 1, 2^32, 2^63-1 (and beyond int64) on an empty queue without a pointer row
 	for _, sl := range []uint64{0, 1, 1 << 32, 1<<63 - 1, 1 << 63, math.MaxUint64} {
 		one("state", std, base(nil), trig(sl, 50, 0))
